@@ -282,18 +282,37 @@ def _r3(model, res):
     res.soft_floor("two's-complement pieces examined", n, 8)
 
 
+def _table_nodes(m, f):
+    """AST nodes in which a function's tables may be written: the function itself, the module-local helpers it calls and the
+    module-level constants those mention (a table hoisted out of the function is still the function's table)."""
+    out, seen, todo = [], set(), [f]
+    while todo:
+        g_ = todo.pop()
+        if id(g_) in seen:
+            continue
+        seen.add(id(g_))
+        for node in ast.walk(g_):
+            out.append(node)
+            if isinstance(node, ast.Name) and isinstance(node.ctx, ast.Load):
+                if node.id in m.constants and m.assign_counts.get(node.id, 0) == 1 and id(m.constants[node.id]) not in seen:
+                    todo.append(m.constants[node.id])
+                elif node.id in m.functions and isinstance(m.functions[node.id], ast.FunctionDef):
+                    todo.append(m.functions[node.id])
+    return out
+
+
 def _r4(model, res):
     m, f = model.registered('ROMAN')
     m2, f2 = model.registered('ARABIC')
     pairs = None
-    for node in ast.walk(f):
+    for node in _table_nodes(m, f):
         if isinstance(node, ast.Tuple) and node.elts and all(isinstance(e, ast.Tuple) and len(e.elts) == 2 for e in node.elts):
             try:
                 pairs = [tuple(ast.literal_eval(e)) for e in node.elts]
             except Exception:
                 pass
     amap = None
-    for node in ast.walk(f2):
+    for node in _table_nodes(m2, f2):
         if isinstance(node, ast.Dict) and node.keys and all(isinstance(kk, ast.Constant) and isinstance(kk.value, str) for kk in node.keys):
             try:
                 amap = dict((kk.value, ast.literal_eval(v)) for kk, v in zip(node.keys, node.values))
@@ -302,8 +321,11 @@ def _r4(model, res):
     if amap is None:
         # the map written some other way (dict(zip(...)), a comprehension): evaluate the expression
         from ..absint import DictV
-        for node in ast.walk(f2):
-            if isinstance(node, ast.Assign) and isinstance(node.value, (ast.Call, ast.DictComp)):
+        cands = [node.value for node in ast.walk(f2) if isinstance(node, ast.Assign)] + \
+            [m2.constants[n_.id] for n_ in ast.walk(f2) if isinstance(n_, ast.Name) and n_.id in m2.constants]
+        for val_ in cands:
+            if isinstance(val_, (ast.Call, ast.DictComp)):
+                node = ast.Assign(targets=[], value=val_)
                 try:
                     v = Interp(model).const_expr(m2, node.value)
                 except Exception:
